@@ -128,6 +128,17 @@ def main():
                             undecided.append({"unit": u["id"], "reason": f"lost anchor: {e}"})
                             lost_units.add(u["id"])
                         attached.add(key)
+                done_slices = set()
+                for u in kunits:
+                    for sl in u.get("slices", []):
+                        if u["id"] in lost_units or sl["name"] in done_slices:
+                            continue
+                        try:
+                            scratch.add_slice(sl)
+                            done_slices.add(sl["name"])
+                        except (core.AnchorLost, FileNotFoundError) as e:
+                            undecided.append({"unit": u["id"], "reason": f"lost anchor (K-slice): {e}"})
+                            lost_units.add(u["id"])
                 run = [u for u in kunits if u["id"] not in lost_units]
                 if run:
                     # first harness alone builds the dependencies; the others then share target/
@@ -231,7 +242,14 @@ def run_mutant(scratch, unit, mem_gb):
             subprocess.run(["cp", "-a", scratch.dir, mdir], check=True)
             ms = core.Scratch("x")
             ms.dir, ms.repo = mdir, os.path.join(mdir, "repo")
+            for f in {sl["file"] for sl in unit.get("slices", [])}:
+                ms.drop_slices(f)
             ms.apply_edit(m["file"], m["old"], m["new"])
+            seen = set()
+            for sl in unit.get("slices", []):
+                if sl["name"] not in seen:
+                    ms.add_slice(sl)
+                    seen.add(sl["name"])
             r = core.run_kani_unit(ms, unit, mem_gb)
         else:
             os.makedirs(mdir)
